@@ -327,10 +327,11 @@ def budget_ok(argv, envp):
 # ------------------------------------------------------------------------------------------------
 class Launch:
     __slots__ = ("mode", "prof", "exe", "path", "argv", "envp", "keys", "iters", "kind", "uid", "gid", "direct",
-                 "expect_secure", "expect_uid", "expect_gid", "idx")
+                 "expect_secure", "expect_uid", "expect_gid", "idx", "timens")
 
     def __init__(self, mode, prof, exe, argv, envp, keys, kind, iters=0, path=None, uid=None, gid=None,
-                 direct=False, expect_secure=0):
+                 direct=False, expect_secure=0, timens=None):
+        self.timens = timens        # (monotonic offset s, boottime offset s): run inside `unshare --time --fork`
         self.mode, self.prof, self.exe = mode, prof, exe
         self.path = path or exe
         self.argv, self.envp, self.keys = argv, envp, keys
@@ -347,6 +348,9 @@ class Launch:
         w = {"mode": self.mode, "profile": self.prof, "kind": self.kind, "path": os.fsdecode(self.path),
              "argv_hex": [h(a) for a in self.argv[:40]], "argc": len(self.argv),
              "envp_hex": [h(e) for e in self.envp[:40]], "envc": len(self.envp)}
+        if self.timens:
+            w["time_namespace"] = {"launcher": "unshare --time --fork --monotonic %d --boottime %d" % self.timens,
+                                   "monotonic_offset_s": self.timens[0], "boottime_offset_s": self.timens[1]}
         if len(self.envp) <= 40:
             w["envp_repr"] = [repr(e)[:120] for e in self.envp]
         if key is not None:
@@ -366,7 +370,7 @@ class Launch:
     def replay_obj(self):
         return {"mode": self.mode, "profile": self.prof, "kind": self.kind, "argv": [a.hex() for a in self.argv],
                 "envp": [e.hex() for e in self.envp], "keys": [k.hex() for k in self.keys], "iters": self.iters,
-                "uid": self.uid, "gid": self.gid, "direct": self.direct}
+                "uid": self.uid, "gid": self.gid, "direct": self.direct, "timens": list(self.timens) if self.timens else None}
 
 
 def kernel_adds_empty_arg():
@@ -422,8 +426,14 @@ def execute(lc, scratch, sysmon):
             if lc.gid is not None:
                 kw["group"] = lc.gid
                 kw["extra_groups"] = []
-            p = subprocess.run([a for a in lc.argv], executable=lc.path, env=env, input=inp,
-                               stdout=subprocess.PIPE, stderr=subprocess.PIPE, timeout=600, **kw)
+            if lc.timens:
+                # argv[0] is the path unshare execs (lc.argv[0] was planned as exactly that path)
+                cmd = ["unshare", "--time", "--fork", "--monotonic", str(lc.timens[0]), "--boottime", str(lc.timens[1]),
+                       "--", lc.path] + [a for a in lc.argv[1:]]
+                p = subprocess.run(cmd, env=env, input=inp, stdout=subprocess.PIPE, stderr=subprocess.PIPE, timeout=600, **kw)
+            else:
+                p = subprocess.run([a for a in lc.argv], executable=lc.path, env=env, input=inp,
+                                   stdout=subprocess.PIPE, stderr=subprocess.PIPE, timeout=600, **kw)
         else:
             if lc.uid is not None or lc.gid is not None:
                 os.chmod(d, 0o777)
@@ -489,6 +499,9 @@ class Judge:
         if rc in (124, 125, 127) and not lc.direct:
             ck.note_inconclusive("%s: launcher status %d (124 watchdog, 125 sysmon, 127 execve refused): %s"
                                  % (what, rc, res["err"][-300:]))
+            return
+        if lc.timens and rc not in (0, None) and "unshare:" in res["err"]:
+            ck.note_inconclusive("%s: unshare failed: %s" % (what, res["err"][-300:]))
             return
         if rc == 3:
             ck.note_inconclusive("%s: probe harness error: %s" % (what, res["err"][-300:]))
@@ -757,7 +770,9 @@ class Judge:
             ck.count("vdso_brackets_checked", iters)
             ck.count("vdso_brackets_checked/" + cname, iters)
             ck.add_eval(iters)
-            ck.note_distinct("%s/vdso/%s/%s" % (cell, cname, "direct" if lc.direct else "traced"))
+            ck.note_distinct("%s/vdso/%s/%s" % (cell, cname, "timens" if lc.timens else "direct" if lc.direct else "traced"))
+            if lc.timens:
+                ck.count("vdso_brackets_checked/time-namespace", iters)
             det = {"clock": cname, "iterations": iters, "failures": fails, "kinds_bitmask(1 Instant,2 MonotonicInstant,4 SystemTime)": kinds,
                    "first_failure(before_s,before_ns,mid_s,mid_ns,after_s,after_ns)": list(first), "last_mid": list(last)}
             if fails and clk == 1:
@@ -767,7 +782,11 @@ class Judge:
             elif fails == 1:
                 ck.note_inconclusive("%s: one REALTIME reading outside its bracket (a clock step cannot be excluded): %s"
                                      % (cell, list(first)))
-            if lc.direct and lc.mode == "staticpie":
+            if lc.timens and lc.mode == "static" and lc.prof == "release":
+                ck.sample({"what": "vdso-bracket in a time namespace", "cell": cell, "clock": cname, "iterations": iters,
+                           "failures": fails, "last_mid": list(last), "offsets(monotonic,boottime)": list(lc.timens),
+                           "host_monotonic_now": time.clock_gettime(time.CLOCK_MONOTONIC)}, key="vdso-timens/" + cname)
+            if lc.direct and not lc.timens and lc.mode == "staticpie":
                 ck.sample({"what": "vdso-bracket", "cell": cell, "clock": cname, "iterations": iters,
                            "failures": fails, "last_mid": list(last)}, key="vdso/" + cname)
         if lc.iters and not lc.direct and "n228" in res:
@@ -801,6 +820,33 @@ class Judge:
 
 
 # ------------------------------------------------------------------------------------------------
+TIMENS = {"ok": False, "offsets": (3600, 86400), "why": "not probed"}
+
+
+def probe_timens():
+    """Is `unshare --time` usable and effective here? Verified with an independent program (python) inside the
+    namespace: its CLOCK_MONOTONIC / CLOCK_BOOTTIME must be shifted by the requested offsets."""
+    mo, bo = TIMENS["offsets"]
+    try:
+        h1 = (time.clock_gettime(time.CLOCK_MONOTONIC), time.clock_gettime(time.CLOCK_BOOTTIME))
+        p = subprocess.run(["unshare", "--time", "--fork", "--monotonic", str(mo), "--boottime", str(bo), "--",
+                            os.sys.executable, "-c",
+                            "import time;print(time.clock_gettime(time.CLOCK_MONOTONIC), time.clock_gettime(time.CLOCK_BOOTTIME))"],
+                           stdout=subprocess.PIPE, stderr=subprocess.PIPE, timeout=60)
+        h2 = (time.clock_gettime(time.CLOCK_MONOTONIC), time.clock_gettime(time.CLOCK_BOOTTIME))
+        if p.returncode != 0:
+            TIMENS.update(ok=False, why="unshare --time exit %d: %s" % (p.returncode, p.stderr.decode("utf-8", "replace")[-200:]))
+            return
+        m, b = (float(x) for x in p.stdout.split())
+        if not (h1[0] + mo <= m <= h2[0] + mo and h1[1] + bo <= b <= h2[1] + bo):
+            TIMENS.update(ok=False, why="clock offsets not in effect inside the namespace (monotonic %.1f vs host %.1f, boottime %.1f vs host %.1f)"
+                          % (m, h1[0], b, h1[1]))
+            return
+        TIMENS.update(ok=True, why="")
+    except (OSError, ValueError, subprocess.TimeoutExpired) as e:
+        TIMENS.update(ok=False, why="unshare --time not usable: %r" % (e,))
+
+
 def plan(ck, bins, scratch):
     quick = ck.tier == "quick"
     launches = []
@@ -863,6 +909,11 @@ def plan(ck, bins, scratch):
             mk([b"start_probe", b"vdso"], list(base_env), [b"HOME"], "vdso-traced", iters=25)
         mk([b"start_probe", b"vdso"], list(base_env), [b"HOME"], "vdso-direct", iters=400_000 if quick else 5_000_000,
            direct=True)
+        # 5b. the same brackets inside a time namespace where CLOCK_MONOTONIC, CLOCK_BOOTTIME (and so their distance
+        #     to REALTIME) are pairwise far apart: a vDSO call with the wrong clock id cannot hide behind equal readings
+        if TIMENS["ok"]:
+            mk([os.fsencode(exe), b"vdso", b"timens"], list(base_env), [b"HOME"], "vdso-timens",
+               iters=60_000 if quick else 1_000_000, direct=True, timens=TIMENS["offsets"])
         # 6. identities: gid != uid, unprivileged user, set-user-id copy (AT_SECURE), exec through a symlink with a
         #    non-UTF-8 name (AT_EXECFN)
         if os.getuid() == 0:
@@ -912,10 +963,14 @@ def run(ck, replay=None):
             exe = bins[(rp["mode"], rp["profile"])]
             lc = Launch(rp["mode"], rp["profile"], exe, [bytes.fromhex(a) for a in rp["argv"]],
                         [bytes.fromhex(a) for a in rp["envp"]], [bytes.fromhex(a) for a in rp["keys"]], rp["kind"],
-                        iters=rp.get("iters", 0), uid=rp.get("uid"), gid=rp.get("gid"), direct=rp.get("direct", False))
+                        iters=rp.get("iters", 0), uid=rp.get("uid"), gid=rp.get("gid"), direct=rp.get("direct", False),
+                        timens=tuple(rp["timens"]) if rp.get("timens") else None)
             launches = [lc]
         else:
             tp = time.time()
+            probe_timens()
+            if not TIMENS["ok"]:
+                ck.note_inconclusive("time-namespace vDSO brackets skipped: " + TIMENS["why"])
             launches = plan(ck, bins, scratch)
             vlib.log("[c07] planned %d launches in %.1fs" % (len(launches), time.time() - tp))
         t0 = time.time()
@@ -945,6 +1000,9 @@ def run(ck, replay=None):
               "the empty key is looked up only against blocks that contain an empty-named entry")
     ck.assume("the initial stack pointer is taken from /proc/self/stat field 28 to re-run tiny_start::start::resolve (dynv = null) "
               "for the aux fields that tiny-std does not expose through getters")
+    if TIMENS["ok"]:
+        ck.assume("time-namespace launches: `unshare --time --fork --monotonic %d --boottime %d` (offsets verified with an independent "
+                  "program inside the namespace); argv[0] there is the probe path because unshare execs it" % TIMENS["offsets"])
     ck.assume("one REALTIME reading outside its bracket per launch is tolerated as a possible clock step (inconclusive); "
               "monotonic brackets are strict")
     return ("probe exec'd with exact raw argv/envp in dynpie/static/staticpie x debug/release; keys on fd 0; reference = first entry "
